@@ -8,6 +8,19 @@ ROOT = os.path.normpath(os.path.join(os.path.dirname(os.path.abspath(__file__)),
 
 # id -> (level, technique, text, note, design_ref, engine)
 CHECKS = {
+    "C01": ("exploration",
+            "deterministic simulation: real aggregator block manager in a synctest bubble with scripted sequencing/execution doubles; seeded response sequences; reference chain model; bounded liveness after faults stop",
+            "Seeded sequences of production steps (sequencing response kind x timestamp relation x execution outcome, clean restarts, initial height 1..50, lazy/normal config) drive the real publishBlock path over the real store; "
+            "after every step the committed block is checked against an independent chain model (height+1, hash link, time, batch attribution in release order, data commitment, app-hash chain, proposer signature under the harness-held key, full-node validation, broadcast=stored, height/state agreement); "
+            "then responses turn well-formed and a block must be committed within 3 steps. Sampling over a large space, not proof.",
+            "Execution and sequencing layers are doubles; the disk is simulated; lazy vs normal mode only changes when publishBlock is called (loops themselves are C17/C13).",
+            "DESIGN.md §5 C01", "stepsim"),
+    "C10": ("exploration",
+            "deterministic simulation: seeded submit/next/restart/crash histories on the real single sequencer over a simulated journalled disk vs a FIFO model; porcupine linearizability check of concurrent histories",
+            "Seeded histories (identical contents, empty, foreign chain id, beyond the bound, restart = new sequencer on the durable image, crash cutting the durable write inside an operation) are checked operation by operation against a FIFO model with candidate sets for undetermined operations, "
+            "followed by restart-and-drain; concurrent client histories are checked with porcupine. Sampling, not proof.",
+            "Simulated disk iterates in key order like badger; crash model is process death.",
+            "DESIGN.md §5 C10", "stepsim"),
     "C14": ("exploration",
             "deterministic simulation: seeded op/crash/disk-error histories on the real store over a simulated journalled disk, checked against a map model",
             "Seeded operation histories (save/overwrite/set-height/state/metadata/reopen/crash inside an operation/injected disk error) run on the real DefaultStore over a simulated disk with a write journal; "
